@@ -423,6 +423,34 @@ def size_contract():
     return Contract(requires=req, ensures=ens)
 
 
+def _r8_thresh_tail_loop(text):
+    """R8: `for VAR in &SLICE[START..] {` -> index loop over SLICE (body verbatim), where SLICE is `TH.data()` or a local
+    bound by `let SLICE = TH.data();` earlier in the function.  The names VAR / TH / SLICE / START are read off the text; when
+    the slice is a local the invariant additionally carries `SLICE@ == TH.elems()` (what `Threshold::data` ensures at the
+    `let`), because the loop is verified in isolation."""
+    m = re.search(r"for (\w+) in &(\w+(?:\.data\(\))?)\[(\w+)\.\.\] \{", text)
+    if not m:
+        return None
+    var, slc, start = m.groups()
+    if slc.endswith(".data()"):
+        th, extra = slc[:-len(".data()")], ""
+    else:
+        b = re.search(r"\blet %s = (\w+)\.data\(\);" % re.escape(slc), text[:m.start()])
+        if not b:
+            return None
+        th, extra = b.group(1), " %s@ == %s.elems()," % (slc, b.group(1))
+    loop = ("let ghost b0 = builder@;\n                let mut i: usize = %(start)s;\n                while i < %(slc)s.len()\n"
+            "                    invariant 1 <= i <= %(th)s.elems().len(), builder@ == b0 + thresh_tail(%(th)s.elems(), i as int),%(extra)s\n"
+            "                    decreases %(th)s.elems().len() - i,\n"
+            "                {\n                    let %(var)s = &%(slc)s[i];\n                    i = i + 1;"
+            % dict(start=start, slc=slc, th=th, extra=extra, var=var))
+    return text[:m.start()] + loop + text[m.end():]
+
+
+_r8_thresh_tail_loop.rule = "R8"
+R8_THRESH_TAIL_LOOP = _r8_thresh_tail_loop
+
+
 def build(repo):
     vf = VerusFile(NAME, repo)
     vf.raw(L.bitcoin_stubs(), keep_vis=True)
@@ -467,12 +495,7 @@ def build(repo):
             lit("R7", "absolute::LockTime::from(t)", "absolute_locktime_from(t)", required=False),
             lit("R7", "relative::LockTime::from(t)", "relative_locktime_from(t)", required=False),
             sub("R7", r"\.push_int\(([^;\n]*?)\.into\(\)\)", r".push_int(i64_from_u32(\1))", required=False),
-            # R8: slice for-loop -> index loop (body verbatim)
-            sub("R8", r"for sub in &thresh\.data\(\)\[(\w+)\.\.\] \{",
-                "let ghost b0 = builder@;\n                let mut i: usize = \\1;\n                while i < thresh.data().len()\n"
-                "                    invariant 1 <= i <= thresh.elems().len(), builder@ == b0 + thresh_tail(thresh.elems(), i as int),\n"
-                "                    decreases thresh.elems().len() - i,\n"
-                "                {\n                    let sub = &thresh.data()[i];\n                    i = i + 1;"),
+            R8_THRESH_TAIL_LOOP,
             # R10: ghost names for the key list that is iterated (sorted or not) and the builder before the arm
             lit("R10", "builder = builder.push_int(thresh.k() as i64);",
                 "let ghost b0 = builder@;\n                let ghost ks = if *self is SortedMulti { bip67_sorted(thresh.elems()) } else { thresh.elems() };\n"
